@@ -20,7 +20,8 @@ def run_check(args):
     env = dict(os.environ, SA_EVIDENCE_DIR=ev)
     r = subprocess.run([f'{V}/check', pid, '--tier', 'quick', '--repo', wt], capture_output=True, text=True, env=env)
     rules = sorted({ln.split()[1] for ln in r.stdout.splitlines() if ln.startswith('  adsg_core') and len(ln.split()) > 1})
-    return pid, r.returncode, rules
+    constructs = sorted({ln.split()[2] for ln in r.stdout.splitlines() if ln.startswith('  adsg_core') and len(ln.split()) > 2})
+    return pid, r.returncode, rules, constructs
 
 
 for sid in seeds:
@@ -35,11 +36,12 @@ for sid in seeds:
             continue
         with ThreadPoolExecutor(16) as ex:
             res = list(ex.map(run_check, [(p, wt, ev) for p in ids]))
-        fired = {p: rules for p, rc, rules in res if rc == 1}
-        errs = [p for p, rc, _ in res if rc not in (0, 1)]
+        fired = {p: rules for p, rc, rules, _c in res if rc == 1}
+        constructs = {p: _c for p, rc, rules, _c in res if rc == 1}
+        errs = [p for p, rc, _r, _c in res if rc not in (0, 1)]
         meta = json.load(open(f'{V}/seeded/{sid}/meta.json'))
         own = meta['breaks_property']
-        out[sid] = {'applies': True, 'property': own, 'fired': fired, 'analysis_error': errs,
+        out[sid] = {'applies': True, 'property': own, 'fired': fired, 'constructs': constructs, 'analysis_error': errs,
                     'caught_by_own_check': own in fired, 'caught': bool(fired)}
         print(f"{sid}: own={'yes' if own in fired else 'NO '} fired={ {p: ','.join(r) for p, r in fired.items()} } errors={errs}")
     finally:
